@@ -330,6 +330,18 @@ func (e *Engine) info(fn *ssa.Function) *fnInfo {
 			mark(x.Tuple, d+1)
 		}
 	}
+	// small integers returned to a caller (a helper that computes a token length) may feed the caller's cursor operations
+	if e.reach[fn] {
+		for _, b := range fn.Blocks {
+			if ret, ok := lastInstr(b).(*ssa.Return); ok {
+				for _, rv := range ret.Results {
+					if isIntType(rv.Type()) && isPlainInt(rv.Type()) {
+						mark(rv, 0)
+					}
+				}
+			}
+		}
+	}
 	for _, b := range fn.Blocks {
 		for _, in := range b.Instrs {
 			if c, ok := in.(ssa.CallInstruction); ok {
@@ -644,6 +656,9 @@ func (e *Engine) run(fn *ssa.Function, entry *State, args []AbsVal) []exitState 
 			}
 		}
 		k := ek{nil, sb.String() + "|" + x.st.exitKey()}
+		if os.Getenv("PCHECK_EXITDEBUG") != "" && strings.Contains(fn.Name(), os.Getenv("PCHECK_EXITDEBUG")) {
+			fmt.Fprintf(os.Stderr, "EXIT %s key=%s ret=%s bytes0=%x\n", fn.Name(), k.key, retString(x.ret), x.st.byteAt(0))
+		}
 		if fn == e.entryFn && len(e.stack) == 1 {
 			k = ek{x.at, sb.String() + "|" + x.st.key(nil)} // the entry point's returns are judged individually
 		}
@@ -872,6 +887,34 @@ func (e *Engine) execBlock(fi *fnInfo, b *ssa.BasicBlock, start int, st *State,
 			var rv []AbsVal
 			for _, r := range in.Results {
 				rv = append(rv, e.eval(st, r))
+			}
+			// A boolean result that is still an undecided comparison / table look-up / error test is decided
+			// here, in the callee's state, where the compared value is still known: the caller gets one exit per
+			// truth value with the refinement applied (predicate helpers such as isNameEnd(c) stay transparent).
+			if len(e.stack) > 1 {
+				for i, r := range in.Results {
+					if b, ok := r.Type().Underlying().(*types.Basic); !ok || b.Kind() != types.Bool {
+						continue
+					}
+					switch rv[i].k {
+					case vCmp, vTable, vErrAt, kHeapRef:
+						t, f := st.clone(), st
+						e.refine(t, rv[i], r, true)
+						e.refine(f, rv[i], r, false)
+						for _, br := range []struct {
+							s *State
+							v bool
+						}{{t, true}, {f, false}} {
+							if br.s.dead {
+								continue
+							}
+							rv2 := append([]AbsVal{}, rv...)
+							rv2[i] = boolVal(br.v)
+							ret(br.s, rv2, in)
+						}
+						return
+					}
+				}
 			}
 			ret(st, rv, in)
 			return
